@@ -378,6 +378,14 @@ theorem slice_keeps_exactly {r : Registry} (h : RInv r) (keep : Nat → Bool) :
 example : ((Registry.new [1, 1, 4]).run [.use 0, .use 0, .free 0, .use 0, .slice [0, 2], .free 1, .use 7]).2
     = [.bool true, .bool false, .bool true, .bool true, .unit, .bool false, .bool false] := by decide
 
+/-- non-vacuity of `never_handed_out_twice` / `slice_keeps_exactly`: a registry from `Registry::new` meets the
+    invariant, and a sequence with other vehicles' releases, a slice and a copy meets the side condition -/
+example : ((((Registry.new [1, 1, 4]).useActor 0).1.run
+    [.use 1, .free 1, .use 0, .slice [0, 1], .copy, .free 2]).1.useActor 0).2 = false :=
+  never_handed_out_twice (new_spec _).1 0 _ (by decide)
+
+example : ((Registry.new [1, 1, 4]).deepSlice [0, 2].contains).all = [0, 2] := by decide
+
 /-! ## 3. The registry context -/
 
 inductive CtxOp where
@@ -467,6 +475,19 @@ theorem handed_out_route_is_fresh (a : Nat) (c : Bool) (n : Nat) :
 theorem ctx_new (closedOf : Nat → Bool) (f : Fleet) :
     CInv closedOf (RegistryCtx.new closedOf (Registry.new f)) :=
   cinv_new closedOf (new_spec f).1
+
+/-- non-vacuity: a context over a fresh registry, another route taken and returned in between -/
+example (closedOf : Nat → Bool) :
+    ((((RegistryCtx.new closedOf (Registry.new [1, 1, 4])).getRoute 0).1.run
+      [.get 1, .freeRoute (RouteCtx.proto 1 (closedOf 1)), .slice [0, 1], .copy]).getRoute 0).2 = none :=
+  (ctx_never_hands_out_twice (ctx_new closedOf [1, 1, 4]) 0 _ (by
+    intro op hop c hc
+    simp only [List.mem_cons, List.mem_nil_iff, or_false] at hop
+    rcases hop with rfl | rfl | rfl | rfl
+    · cases hc
+    · cases hc; simp [RouteCtx.proto, RouteCtx.accept, RouteCtx.new]
+    · cases hc
+    · cases hc)).2
 
 /-! ## 4. Deep copies and handles: an operation only changes the handles it names -/
 
